@@ -1,0 +1,6 @@
+//go:build verif
+
+package hash
+
+// fieldHasLength reports whether a length is enforced for the field.
+func fieldHasLength(fi *fieldInfo) bool { return fi.Opts.Length > 0 }
